@@ -51,6 +51,13 @@ def cf_case(draw):
         arr = arr * pair_sign[None, :, :]
         c[kind]["counts"] = arr.tolist()
         c["signed"] = True
+    if c["auto"] and draw(st.sampled_from([False, False, True])):
+        # the container stores two weight arrays also when flagged as an autocorrelation; they are
+        # independent members and must come back as written
+        kind = draw(st.sampled_from([k for k in ["dd"] + c["present"] if c[k]["auto"]] or ["dd"]))
+        w2 = np.array(c[kind]["w2"], float)
+        c[kind]["w2"] = (w2 * np.array(draw(st.lists(st.sampled_from([1.0, 2.0, 0.5, 3.0]), min_size=w2.size, max_size=w2.size))).reshape(w2.shape)).tolist()
+        c["auto_distinct_weights"] = True
     return c
 
 
